@@ -65,7 +65,7 @@ def family(rnd):
     spec = [{'t': 'source', 'ids': ids, 'fields': {'image': 's100', 'g1': 't020', 'g2': 't021'}}]
     if rnd.random() < 0.5:
         spec.append({'t': 'transform', 'fields': {'image': ['s101', ['image']]}, 'params': {}, 'inherit': True})
-    kind = rnd.choice(['group', 'group', 'byvalue-filter', 'filter', 'merge', 'split'])
+    kind = rnd.choice(['group', 'group', 'byvalue-filter', 'filter', 'merge', 'split', 'shared-layer', 'shared-layer', 'join', 'ids-under-group', 'ids-under-filter'])
     out = {'kind': kind, 'ids': ids, 'variants': []}
     base = lambda: P.build(spec, [])[0]      # noqa: E731
 
@@ -104,6 +104,47 @@ def family(rnd):
             return P.build([{'t': 'merge', 'parts': [[a], [b]]}], [])[0]
         vs = [(f'cut at {k}', lambda: mk(k)), (f'cut at {k2}', lambda: mk(k2)), (f'cut at {k}, functions exchanged', lambda: mk(k, True)),
               (f'cut at {k} again', lambda: mk(k))]
+        fields = ['image']
+    elif kind == 'shared-layer':
+        # ONE layer object (its edges are shared) over sources that differ; and two instances of one class with different arguments
+        from stacks import Scale
+        shared = Transform(image=Function(P.sym('s130'), 'image'), __inherit__=True)
+        flt = Filter(P._named_pred(P.sym('t031'), ['image']))
+
+        def src(sym):
+            return P.build([{'t': 'source', 'ids': ids, 'fields': {'image': sym, 'g1': 't020', 'a': sym}}], [])[0]
+        vs = [('source s100 >> shared >> shared filter', lambda: src('s100') >> shared >> flt),
+              ('source s105 >> shared >> shared filter', lambda: src('s105') >> shared >> flt),
+              ('source s100 >> Scale(2) on a >> filter', lambda: src('s100') >> Scale(factor=2) >> Filter(P._named_pred(P.sym('t031'), ['a']))),
+              ('source s100 >> Scale(5) on a >> filter', lambda: src('s100') >> Scale(factor=5) >> Filter(P._named_pred(P.sym('t031'), ['a']))),
+              ('source s100 >> shared >> group by g1', lambda: src('s100') >> shared >> GroupBy('g1')),
+              ('source s105 >> shared >> group by g1', lambda: src('s105') >> shared >> GroupBy('g1'))]
+        fields = ['image']
+    elif kind == 'join':
+        from connectome import Join
+        kl = {i: rnd.choice(['k1', 'k2', 'k3']) + str(j) for j, i in enumerate(ids)}
+        kr1 = {i: kl[i] for i in ids}
+        kr2 = {i: (kl[i] if j % 2 == 0 else 'other' + str(j)) for j, i in enumerate(ids)}      # another key function: fewer matches
+        sympool.TABLE['t022'] = lambda i: kl[i]
+        sympool.TABLE['t023'] = lambda i: kr1[i]
+        sympool.TABLE['t024'] = lambda i: kr2[i]
+
+        def tab(ksym, vname, vsym):
+            return P.build([{'t': 'source', 'ids': ids, 'fields': {'key': ksym, vname: vsym}}], [])[0]
+        vs = [('right keyed by kr1', lambda: Join(tab('t022', 'lval', 's140'), tab('t023', 'rval', 's141'), 'key')),
+              ('right keyed by kr2', lambda: Join(tab('t022', 'lval', 's140'), tab('t024', 'rval', 's141'), 'key')),
+              ('left keyed by kr2', lambda: Join(tab('t024', 'lval', 's140'), tab('t023', 'rval', 's141'), 'key')),
+              ('right keyed by kr1 again', lambda: Join(tab('t022', 'lval', 's140'), tab('t023', 'rval', 's141'), 'key'))]
+        fields = ['lval', 'rval']
+    elif kind in ('ids-under-group', 'ids-under-filter'):
+        # the same grouping / predicate over different id sets of one source (folds of a cross-validation)
+        sub = sorted(rnd.sample(ids, rnd.randint(1, len(ids) - 1)))
+        sub2 = sorted(rnd.sample(ids, rnd.randint(1, len(ids) - 1)))
+        if kind == 'ids-under-group':
+            mk = lambda keep: (lambda: base() >> Filter.keep(keep) >> GroupBy('g1'))      # noqa: E731
+        else:
+            mk = lambda keep: (lambda: base() >> Filter.keep(keep) >> Filter(P._named_pred(P.sym('t031'), ['image'])))      # noqa: E731
+        vs = [('all ids', mk(ids)), (f'ids {sub}', mk(sub)), (f'ids {sub2}', mk(sub2)), ('all ids again', mk(ids))]
         fields = ['image']
     else:
         def halves(id):
